@@ -88,6 +88,41 @@ THOROUGH = QUICK + [
     ("TN", dict(T=3)),
     ("TP", dict(T=4)),
     ("TQ", dict(T=3)),
+    # larger horizons / grids
+    ("TA", dict(T=6)),
+    ("TA", dict(T=2, nw=17, nc=9)),
+    ("TA", dict(T=3, nw=9, nc=5, sym_k=True)),
+    ("TA", dict(T=3, nw=5, nc=3, sym_g=True)),
+    ("TB", dict(T=6)),
+    ("TC", dict(T=4)),
+    ("TC", dict(T=2, nw=9, nc=5)),
+    ("TD", dict(T=4)),
+    ("TD", dict(T=3, nw=5)),
+    ("TE", dict(T=4)),
+    ("TE", dict(T=4, dep=("_period", "d", "h"))),
+    ("TF", dict(T=6)),
+    ("TG", dict(T=4)),
+    ("TG", dict(T=4, up=True)),
+    ("TJ", dict(T=4)),
+    ("TK", dict(T=4)),
+    ("TL", dict(T=4)),
+    ("TM", dict(T=4)),
+    ("TN", dict(T=4)),
+    ("TP", dict(T=6)),
+    ("TQ", dict(T=4)),
+    ("TA", dict(T=10)),
+    ("TA", dict(T=2, nw=33, nc=17)),
+    ("TA", dict(T=4, nw=17, nc=9, sym_k=True)),
+    ("TB", dict(T=10)),
+    ("TC", dict(T=6)),
+    ("TC", dict(T=3, nw=17, nc=9)),
+    ("TD", dict(T=3, nw=9)),
+    ("TE", dict(T=6)),
+    ("TG", dict(T=6)),
+    ("TK", dict(T=6)),
+    ("TM", dict(T=6)),
+    ("TN", dict(T=6)),
+    ("TQ", dict(T=6)),
 ]
 
 
@@ -162,7 +197,8 @@ def u_solve(rec, spec, jit_too=True):
                 try:
                     from ..harness import model_assignment
 
-                    r0, mdl = rec._check(list(assume) + [z3.Not(full)], 30000)
+                    fc = full()
+                    r0, mdl = rec._check(list(assume) + [z3.Not(fc)], 30000) if isinstance(fc, z3.ExprRef) else (None, None)
                     if r0 == "sat":
                         return one({k: v for k, v in model_assignment(mdl, S.symbols).items() if k in S.symbols})
                 except Exception:  # noqa: BLE001
@@ -208,8 +244,8 @@ def u_solve(rec, spec, jit_too=True):
                 n_abs += 1
             else:
                 e_a, r_a = e, r
-            full = sj.x_eq(e, r) if e_a is not e else None
-            rec.prove(f"V[{t}]{list(idx)}==bellman", sj.x_eq(e_a, r_a), assume, replay=mk_replay(t, idx, r, full=full if isinstance(full, z3.ExprRef) else None))
+            full = (lambda e=e, r=r: sj.x_eq(e, r)) if e_a is not e else None
+            rec.prove(f"V[{t}]{list(idx)}==bellman", sj.x_eq(e_a, r_a), assume, replay=mk_replay(t, idx, r, full=full))
             # (iv) jit
             if Vjit is None:
                 continue
